@@ -12,7 +12,7 @@ LABELS = ["LOffer", "LOfferFail", "LTake", "LConsExit", "LAbsorb(keep)", "LAbsor
 class P(vlib.Prop):
     pid = "C03"
     coq_dirs = ["Common", "C03"]
-    coq_targets = ["C03/Properties.vo", "C03/Witness.vo", "C03/Harness.vo"]
+    coq_targets = ["C03/Properties.vo", "C03/Witness.vo", "C03/Harness.vo", "C03/Obs.vo"]
     properties_module = "C03.Properties"
     properties_file = "C03/Properties.v"
     instance_obligations = []
@@ -70,8 +70,35 @@ class P(vlib.Prop):
         "refCountDone's counter is represented by the number of outstanding parts of the request (a miscount is a correspondence failure)",
     ]
 
+    CLAUSES = {1: "obs-shutdown-never-returned", 2: "obs-begin-after-return", 3: "obs-inner-shutdown-not-once-before-return",
+               4: "obs-goroutine-leak", 5: "obs-send-not-returned", 6: "obs-export-open-at-return",
+               7: "obs-lost-accepted-request", 8: "obs-duplicate-export", 9: "obs-not-durable",
+               20: "obs-split-request-not-durable", 99: "obs-malformed-case"}
+
+    def clause_oracle(self, ctx):
+        """Independent oracle + failing-input search: the decidable clause checker C03.Obs.prop_viol (proved to decide
+        the Prop-level clauses, Properties.observed_clauses_decided) on EVERY recorded case, without the model."""
+        terms = [c["term"] for c in ctx.cases]
+        if not terms:
+            return
+        failed = vlib.coq_eval_cases(ctx, "C03.Obs", "prop_ok", "octype", terms, shard=400)
+        ctx.extra_coverage["clause_checker"] = {"cases": len(terms), "violations": len(failed)}
+        seen = set()
+        for i in failed[:40]:
+            out = vlib.coq_eval_term(ctx, "C03.Obs", "prop_viol (%s)" % terms[i])
+            m = re.search(r"=\s*(\d+)", out)
+            n = int(m.group(1)) if m else 99
+            kind = self.CLAUSES.get(n, "obs-clause-%d" % n)
+            if kind in seen:
+                continue
+            seen.add(kind)
+            ctx.oracle.append({"kind": kind, "term": terms[i], "harness": ctx.cases[i]["harness"],
+                               "detail": "clause %d of the property fails on this recorded behaviour of the implementation "
+                                         "(Coq clause checker C03.Obs.prop_viol, independent of the model)" % n})
+
     def extra_checks(self, ctx):
-        """Evidence: which labels of the LTS the model takes while replaying (a sample of) the cases."""
+        """Clause checker over all cases; evidence: which labels of the LTS the model takes while replaying the cases."""
+        self.clause_oracle(ctx)
         terms = [c["term"] for c in ctx.cases if len(c["term"]) < 4000 and not c["term"].startswith("([9")]
         terms = terms[::max(1, -(-len(terms) // 200))]   # about 200, spread over all families
         if not terms:
